@@ -633,7 +633,7 @@ def declared_types_known(F, rep):
 def pairing(F, rep):
     """operator constraints live on both operands; blob field sets are compared in both directions"""
     n = tc.operand_pairing(F, rep, "OPERAND-PAIR", [F.fn(TC + "expression"), F.fn(TC + "statement")])
-    rep.floor("OPERAND-PAIR", "paired operator constraint sites", n, 22)
+    rep.floor("OPERAND-PAIR", "operator constraint sites relating two nodes", n, 11)
     n = tc.field_set_agreement(F, rep, "FIELD-SETS", F.fn(TC + "sub_unify"))
     rep.floor("FIELD-SETS", "blob/blob rows", n, 1)
 
